@@ -191,7 +191,7 @@ CONTRACTS = [ZerothMoment(), FirstMoment(), WeightedComputeWeights(), MomentsToE
 LEMMAS = [L.SmtLemma("affine-transformation-of-moments", _affine_lemma), L.SmtLemma("uniform-weights-are-trapezoidal-over-length", _uniform_lemma),
           L.SmtLemma("A-DIST-gives-nonnegative-interval-weights", _adist_lemma)]
 ASSUMPTIONS = ["A-DIST: the distribution's interval moments satisfy M0>=0, x1*M0<=M1<=x2*M0 (true of every probability density; scipy/chaospy + quad accuracy not verified)",
-               "weighted weights proved for boundary points on and finite grid points; infinite ends, boundary-off renormalisation, weighted midpoint, Sum of weights == 1: layer B",
+               "weighted weights proved for boundary points on and finite grid points; infinite ends, boundary-off renormalisation, the weighted midpoint for real (inexact) cdf/ppf pairs, Sum of weights == 1: layer B",
                "moment vectors of length 1..3 (loop-free unrolling)"]
 
 
